@@ -13,8 +13,8 @@ META = {
     "functions": ["behave.formatter.rerun.RerunFormatter.feature/eof/close/report_scenario_failures", "behave.formatter.base.StreamOpener",
                   "behave.runner_util.collect_feature_locations/FeatureListParser/FileLocationParser/parse_features (closed loop)",
                   "behave.model.*.run (formatter events feature/eof/close)"],
-    "bounds": {"quick": "4 shapes (two feature files; scenarios inside/outside rules; outline rows; a feature that is never started), outcomes over "
-                        "{pass, assert-fail, exception} + undefined steps, --stop symbolic, one job with hook faults (k over Z); closed loop "
+    "bounds": {"quick": "10 shapes (two feature files, also named against sort order; scenarios inside/outside rules; outline rows, empty examples; rules only; equal names; a feature that is never started), outcomes over "
+                        "{pass, assert-fail, exception} + undefined steps, --stop symbolic, three jobs with hook faults (k over Z; hooks that read scenario.status first; a hook skipping its scenario); closed loop "
                         "run -> rerun file -> collect_feature_locations('@rerun.txt') -> parse_features on scratch files",
                "thorough": "6 shapes, outcomes incl. pending and skip-scenario, selection symbolic"},
     "outside": ["show_timestamp / description comment sections", "a second complete run with outcomes (selection by parse_features is checked instead)"],
